@@ -29,6 +29,28 @@ type c19Limit struct {
 	Backing string
 }
 
+// magicKeyPool returns keys that all begin with the doubled footer magic, so
+// that the first (page-aligned) key of every persisted segment looks like
+// the start of a footer.
+func magicKeyPool(r *eng.Rng) []string {
+	seen := map[string]bool{}
+	var keys []string
+	for len(keys) < 8 {
+		k := []byte("0m1o2s0m1o2s")
+		v := uint32(r.Pick(4, 4, 0, 5, 0x30303030, 0xffffffff))
+		l := uint32(r.Pick(0, 27, 40, 400, 4096, 1<<30))
+		k = append(k, byte(v), byte(v>>8), byte(v>>16), byte(v>>24), byte(l), byte(l>>8), byte(l>>16), byte(l>>24))
+		for i := r.Intn(10); i > 0; i-- {
+			k = append(k, byte('a'+r.Intn(26)))
+		}
+		if !seen[string(k)] {
+			seen[string(k)] = true
+			keys = append(keys, string(k))
+		}
+	}
+	return keys
+}
+
 func hostileKeyPool(r *eng.Rng) []string {
 	seen := map[string]bool{"": true}
 	keys := []string{""}
